@@ -55,8 +55,24 @@ def ring_rule(ctx, rid, fn, spec, allow_raw=()):
     return n
 
 
+def cmn_order_rule(ctx, P):
+    r = ctx.rule("ORDER.cmn-after-limit", "in feat_s2mfc2feat_live the in-place mean normalisation is applied to exactly the frames that are consumed: the count and the end-of-utterance flag it is given are final (no store to *inout_ncep or endutt can follow the call), so frames handed back to the caller are not normalised twice", floor=2)
+    f = P.fn("feat_s2mfc2feat_live", "feat.c")
+    ctx.touch(f)
+    calls = f.calls("feat_cmn")
+    if not calls:
+        raise AnalysisIncomplete("anchor vanished: the feat_cmn call of feat_s2mfc2feat_live")
+    ctx.check(r, len(calls) == 1, "feat_s2mfc2feat_live:once", f.where(calls[0]), "the block is normalised %d times in one call" % len(calls))
+    for c in calls:
+      args = [f.canon(a, subst=False) for a in f.args(c)]
+      for x in ("*inout_ncep", "endutt"):
+        later = [s_ for s_ in paths.stores(f) if s_["path"] == x and paths.may_reach(f, c, lambda e, n_=s_["node"]: e == n_)]
+        ctx.check(r, x in args and not later, "feat_s2mfc2feat_live:final:%s@%d" % (x, calls.index(c)), f.where(c), "feat_cmn is called before `%s` gets its final value (line %s): the block is normalised over more frames than are consumed, and the frames handed back are normalised again by the next call" % (x, f.line(later[0]["node"]) if later else "?"))
+
+
 def run(ctx):
     P = ctx.P
+    cmn_order_rule(ctx, P)
     ac = {f.name: f for f in P.functions(U) if f.file.endswith(U)}
     need = ["acmod_process_raw", "acmod_process_float32", "acmod_process_full_raw", "acmod_process_full_float32", "acmod_process_mfcbuf", "acmod_process_cep",
             "acmod_process_full_cep", "acmod_rewind", "acmod_advance", "acmod_start_utt", "acmod_end_utt", "calc_feat_idx", "acmod_set_grow"]
